@@ -94,7 +94,15 @@ func main() {
 	metaSteps := flag.String("meta", "", "debug: run one metadata script (comma separated steps)")
 	caseKind := flag.String("case", "", "debug: run one case of this kind")
 	caseSpec := flag.String("spec", "", "debug: JSON spec for -case")
+	jobKind := flag.String("job", "", "debug: run one worker job of this kind in this process (argument: -spec)")
 	flag.Parse()
+	if *jobKind != "" {
+		r, err := vx.Call(*jobKind, json.RawMessage(*caseSpec))
+		b, _ := json.MarshalIndent(r, "", " ")
+		fmt.Println(string(b), err)
+		os.RemoveAll(nsqd.VerifBase)
+		return
+	}
 	if *caseKind != "" {
 		o := runCase(*caseKind, json.RawMessage(*caseSpec))
 		fmt.Println("obs:", o.Obs)
